@@ -56,6 +56,7 @@ inductive Kind where
 
 inductive Out where
   | pending | ok | already | dropped
+  | err          -- the generation failed (500 for a revocation with generate-on-revoke; logged for a tick)
   deriving Repr, DecidableEq
 
 structure Inp where
@@ -63,6 +64,8 @@ structure Inp where
   key : Str                 -- revoke: the serial
   record : RevRec           -- revoke: the record it stores
   now : Nat                 -- the clock reading of step 3
+  fail : Nat := 0           -- fault oracle: the step at which this request's generation fails (2 `GetCRL` with an
+                            -- error other than not-found, 3 `GetRevokedCertificates`, 4 `CreateCRL` / `StoreCRL`); 0 = none
   deriving Repr, DecidableEq
 
 structure Req where
@@ -86,6 +89,11 @@ structure G where
   mutex : Bool             -- the code as written: true
   deriving Repr, DecidableEq
 
+/-- an error inside the critical section: the function returns, the deferred `Unlock` runs, nothing
+    has been written -/
+def failExit (g : G) (r : Req) : G × Req :=
+  (if g.mutex then { g with lock := false } else g, { r with pc := 6, holding := false, out := .err })
+
 def step (g : G) (r : Req) : G × Req :=
   if r.out ≠ .pending then (g, r) else
   match r.pc with
@@ -101,9 +109,10 @@ def step (g : G) (r : Req) : G × Req :=
     if !g.mutex then (g, { r with pc := 2 })
     else if g.lock then (g, r)
     else ({ g with lock := true }, { r with pc := 2, holding := true })
-  | 2 => (g, { r with pc := 3, prev := g.crl.map (·.number) })
-  | 3 => (g, { r with pc := 4, snap := g.revoked })
+  | 2 => if r.inp.fail = 2 then failExit g r else (g, { r with pc := 3, prev := g.crl.map (·.number) })
+  | 3 => if r.inp.fail = 3 then failExit g r else (g, { r with pc := 4, snap := g.revoked })
   | 4 =>
+    if r.inp.fail = 4 then failExit g r else
     ({ g with crl := some (mkCRL r.prev r.snap r.inp.now g.cache),
               log := mkCRL r.prev r.snap r.inp.now g.cache :: g.log }, { r with pc := 5 })
   | 5 =>
@@ -119,5 +128,47 @@ def machine : Machine G Req := { step := step, restartG := restartG, restartL :=
 
 /-- numbers of the stored lists, oldest first -/
 def numbers (g : G) : List Nat := (g.log.map (·.number)).reverse
+
+/-! ## reload: a new authority on the same database, the old one closed for reload
+
+  /repo/ca/ca.go `CA.Reload` builds a new `Authority` with `WithDatabase(ca.auth.GetDatabase())` — new
+  configuration (cache duration), new `crlMutex`, start-up generation, new ticker — and then calls
+  /repo/authority/authority.go `CloseForReload` on the old one, which stops the old ticker and
+  closes `crlStopper` (guarded by `a.crlTicker != nil`).  The old authority's requests are the ticks
+  its ticker would still deliver; they run the same `step`, but under the old mutex and the old
+  cache duration.  `oldStopped` = the old generator goroutine has been stopped: a tick that has
+  not fired yet never fires.  (Requests of the old authority that are in flight at the very moment
+  of the reload are outside this model: see notes.) -/
+
+structure G2 where
+  g : G              -- the current authority: durable state, its mutex, its cache duration
+  oldLock : Bool     -- the replaced authority's crlMutex
+  oldCache : Nat     -- the replaced authority's cache duration
+  oldStopped : Bool  -- CloseForReload stopped its generator
+  deriving Repr, DecidableEq
+
+structure Req2 where
+  old : Bool         -- a tick of the replaced authority's generator
+  r : Req
+  deriving Repr, DecidableEq
+
+def step2 (g2 : G2) (q : Req2) : G2 × Req2 :=
+  if q.old then
+    if g2.oldStopped ∧ q.r.pc = 0 ∧ q.r.out = .pending then
+      (g2, { q with r := { q.r with out := .dropped } })
+    else
+      ({ g2 with g := { (step { g2.g with lock := g2.oldLock, cache := g2.oldCache } q.r).1 with
+                        lock := g2.g.lock, cache := g2.g.cache },
+                 oldLock := (step { g2.g with lock := g2.oldLock, cache := g2.oldCache } q.r).1.lock },
+       { q with r := (step { g2.g with lock := g2.oldLock, cache := g2.oldCache } q.r).2 })
+  else ({ g2 with g := (step g2.g q.r).1 }, { q with r := (step g2.g q.r).2 })
+
+/-- a restart of the machine ends both authorities; what starts afterwards is one process -/
+def restartG2 (now : Nat) (g2 : G2) : G2 :=
+  { g2 with g := restartG now g2.g, oldLock := false, oldStopped := true }
+
+def restartL2 (q : Req2) : Req2 := { q with r := restartL q.r }
+
+def machine2 : Machine G2 Req2 := { step := step2, restartG := restartG2, restartL := restartL2 }
 
 end Verif.CRL
